@@ -147,7 +147,7 @@ def facts_dir(config, repo=None):
                 tail = '\n'.join(p.stdout.splitlines()[-25:])
                 raise AnalysisIncomplete(f'configuration `{config}` does not type-check under the driver '
                                          f'(cargo +nightly check {" ".join(args)}):\n{tail}')
-            for c in crates:
+            for c in [a for i, a in enumerate(args) if i > 0 and args[i - 1] == '-p']:
                 if not os.path.exists(os.path.join(d, c + '.json')):
                     raise AnalysisIncomplete(f'fact file {c}.json missing for configuration `{config}`')
             with open(ok_marker, 'w') as f:
@@ -302,9 +302,11 @@ class Facts:
         self.repo = repo or repo_root()
         self.dir = facts_dir(config, self.repo)
         self.crates = {}
-        for c in CONFIGS[config][1]:
-            with open(os.path.join(self.dir, c + '.json')) as f:
-                self.crates[c] = json.load(f)
+        for c in LIB_CRATES:
+            fp = os.path.join(self.dir, c + '.json')
+            if os.path.exists(fp):
+                with open(fp) as f:
+                    self.crates[c] = json.load(f)
         self.bodies = {}
         self.mir = {}
         self.fns = {}
